@@ -80,7 +80,14 @@ Odeint ==
     /\ k' = nt
     /\ UNCHANGED <<opts, arr, yarr, nextArr, pc>>
 
-Next == (method # "odeint" /\ (Step \/ AppendRow \/ Resetup)) \/ Odeint \/ Return
+(* the integrator reports that it could not reach the requested time: the call REFUSES (raises) instead of      *)
+(* handing out a row -- an honest outcome; what is never allowed is a row that is not the requested point.    *)
+Refuse ==
+    /\ pc = "step" /\ k < nt /\ method # "odeint"
+    /\ pc' = "refused"
+    /\ UNCHANGED <<opts, arr, yarr, nextArr, rows, k>>
+
+Next == (method # "odeint" /\ (Step \/ AppendRow \/ Resetup \/ Refuse)) \/ Odeint \/ Return
 Spec == Init /\ [][Next]_vars
 
 ---------------------------------------------------------------------------
